@@ -64,6 +64,10 @@ def check(ctx: Ctx) -> None:
     from .c09 import r3 as c09_r3
     ctx.shared(c09_r3, "C09.R3", "C10.R14", "a sweep deleting metadata files removes what hint-less recovery resolves to")
     pointer_publishes_fresh_version(ctx)
+    # hint-less recovery trusts list_files: a listing that drops entries (or a write that writes nothing) makes an existing
+    # table look uninitialised
+    from .c20 import r8_work
+    r8_work(ctx, "C10.R16")
 
 
 def _fold_digits(ctx: Ctx, f: FunctionInfo, e: ast.AST, at: int, depth: int = 0) -> Optional[str]:
